@@ -48,7 +48,7 @@ def plan(tier, seed):
 
 def mandatory(tier):
     out = [f"mode/{m}" for m in ("linear", "nearest")] + [f"padding/{p}" for p in PADDINGS]
-    out += ["api/Image.sample(grid)", "api/ImageBatch.sample(grids)", "api/ImageBatch.sample(grid of first image)", "api/sample(coords)", "api/identity", "api/SampleImage", "api/AlignImage", "api/TransformImage", "inside_samples", "outside_constant_samples"]
+    out += ["api/Image.sample(grid)", "api/ImageBatch.sample(grids)", "api/ImageBatch.sample(grid of first image)", "api/sample(coords)", "api/identity", "api/SampleImage", "api/AlignImage", "api/TransformImage", "inside_samples", "outside_constant_samples", "source/derived_grid", "source/derived_grid/fractional_internal_size"]
     return out
 
 
@@ -158,10 +158,20 @@ def run_item(ctx, item):
     D = int(rng.choice([2, 3]))
     C = int(rng.integers(1, 3))
     sp = gen.rand_grid_params(rng, D, max_size=24 if D == 2 else 12, min_size=5, big_offset=(i % 5 == 0))
+    sgrid = gen.make_grid(sp)
+    if i % 4 == 3:
+        # the source image lives on a derived grid (pyramid level / resampled): its internal size may be fractional
+        # (e.g. 13 -> 6.5, reported 7); ITK gets the attributes the grid reports
+        how = str(rng.choice(["downsample", "resample"]))
+        sgrid = sgrid.downsample(1) if how == "downsample" else sgrid.resample(float(sgrid.spacing().min()) * float(rng.uniform(1.15, 1.6)))
+        sp = dict(sp, size=[int(k) for k in sgrid.size()], spacing=sgrid.spacing().tolist(), route="center", center=sgrid.center().tolist(), derived=how)
+        sp.pop("origin", None)
+        ctx.bucket("source/derived_grid")
+        if bool((sgrid._size != sgrid._size.round()).any()):
+            ctx.bucket("source/derived_grid/fractional_internal_size")
     sref = gen.ref_grid(sp)
     shape = tuple(sp["size"][::-1])
     data = smooth_noise(rng, (C,) + shape).astype(np.float32).astype(np.float64)
-    sgrid = gen.make_grid(sp)
     image = Image(torch.tensor(data, dtype=torch.float32), sgrid)
     simg = sitk_image(sp, data)
     ctx.sample({"source": sp, "C": C})
@@ -223,6 +233,12 @@ def run_item(ctx, item):
             eye = torch.eye(D, D + 1).unsqueeze(0)
             out = mod(eye, image.tensor().unsqueeze(0))
             compare(ctx, "AlignImage(identity)", out[0].numpy(), sref, tref, itk, data, mode, padding, info)
+            # the module is reused: calls with other transforms in between (translation vector, matrix) must not
+            # change what the identity resampling returns afterwards
+            mod(torch.tensor(rng.normal(size=(1, D, 1)) * 0.1, dtype=torch.float32), image.tensor().unsqueeze(0))
+            mod(torch.tensor(np.eye(D, D + 1)[None] + rng.normal(size=(1, D, D + 1)) * 0.05, dtype=torch.float32), image.tensor().unsqueeze(0))
+            out = mod(None, image.tensor().unsqueeze(0))
+            compare(ctx, "AlignImage(None) after other calls", out[0].numpy(), sref, tref, itk, data, mode, padding, info)
         with ctx.guard("TransformImage", **info):
             ctx.bucket("api/TransformImage")
             mod = TransformImage(tgrid, sgrid, sampling=mode, padding=padding if padding is not None else "zeros")
@@ -234,6 +250,9 @@ def run_item(ctx, item):
             zero = torch.zeros((1, D) + tuple(tgrid.shape))
             out = mod(zero, image.tensor().unsqueeze(0))
             compare(ctx, "TransformImage(zero flow)", out[0].numpy(), sref, tref, itk, data, mode, padding, info)
+            mod(torch.tensor(rng.normal(size=(1, D, 1)) * 0.1, dtype=torch.float32), image.tensor().unsqueeze(0))
+            out = mod(None, image.tensor().unsqueeze(0))
+            compare(ctx, "TransformImage(None) after other calls", out[0].numpy(), sref, tref, itk, data, mode, padding, info)
     # (b) batches with shared / per-image source grids and shared / per-image target grids
     with ctx.guard("ImageBatch.sample(grids)"):
         ctx.bucket("api/ImageBatch.sample(grids)")
